@@ -961,6 +961,10 @@ class Engine:
             if base.setitem is None: raise Unsupported("store into opaque " + base.tag)
             self.log_write(base, idx if not is_sym(idx) else str(idx.z), node)
             base.setitem(self, idx, v); return
+        if isinstance(base, MSeq):
+            zi = to_z(idx)
+            self.side_oblige("index in range", z3.And(zi >= 0, zi < base.ln), node)
+            base.store(idx, v); return
         if isinstance(base, dict):
             if is_sym(idx): raise Unsupported("dict store with symbolic key (line %s)" % getattr(node, "lineno", "?"))
             self.log_write(base, idx, node)
@@ -1178,6 +1182,9 @@ class Engine:
                 loc[m] = HavocDict()
             elif isinstance(old, list):
                 loc[m] = AccList(m)
+            elif isinstance(old, MSeq):
+                self.fresh_n += 1
+                loc[m] = MSeq(old.ln, z3.Array("%s!%d" % (m, self.fresh_n), z3.IntSort(), z3.IntSort()), old.label)
             elif isinstance(old, AccList):
                 loc[m] = AccList(m, old.last)
             elif isinstance(old, (tuple, str)) or old is None:
